@@ -45,6 +45,12 @@ let absurd_set_token cif_list t =
       for i = 0 to m - 1 do
         if isd u.[i] then (incr run; if !run >= 7 then bad := true) else run := 0;
         if u.[i] = '-' && i + 1 < m && isd u.[i + 1] && (i = 0 || not (isd u.[i - 1])) then bad := true;
+        (* invalid octal ("08-11"): strtoul base 0 stops after the 0, the list parser resynchronises on "-11" *)
+        if u.[i] = '0' && (i = 0 || not (isx u.[i - 1] || u.[i - 1] = 'x' || u.[i - 1] = 'X')) then begin
+          let j = ref (i + 1) in
+          while !j < m && u.[!j] >= '0' && u.[!j] <= '7' do incr j done;
+          if !j < m && (u.[!j] = '8' || u.[!j] = '9') then bad := true
+        end;
         if u.[i] = '0' && i + 1 < m && (u.[i + 1] = 'x' || u.[i + 1] = 'X') then begin
           let k = ref 0 in
           let j = ref (i + 2) in
